@@ -14,6 +14,7 @@ import (
 	"time"
 
 	"go.opentelemetry.io/collector/component/componenttest"
+	"go.opentelemetry.io/collector/exporter/exporterhelper/internal/experr"
 	"go.opentelemetry.io/collector/exporter/exporterhelper/internal/request"
 )
 
@@ -26,7 +27,15 @@ type vPart struct{ id, n int }
 // (pending batch + what still fits) and the last chunk can both be smaller than min_size.
 type vBReq struct{ parts []vPart }
 
-func (r *vBReq) ItemsCount() int { return len(r.parts) }
+func (r *vBReq) ItemsCount() int {
+	n := 0
+	for _, p := range r.parts {
+		if p.n > 0 {
+			n++
+		}
+	}
+	return n
+}
 
 func (r *vBReq) size() int64 {
 	n := 0
@@ -78,7 +87,22 @@ type vDone struct {
 func (d vDone) OnDone(err error) {
 	d.rec.mu.Lock()
 	defer d.rec.mu.Unlock()
-	d.rec.fired = append(d.rec.fired, fmt.Sprintf("obs fired id=%d err=%d", d.id, vB(err != nil)))
+	// the callback's view of the (possibly combined) error: is there one, and which classifications does it carry
+	d.rec.fired = append(d.rec.fired, fmt.Sprintf("obs fired id=%d err=%d plain=%d shut=%d", d.id, vB(err != nil),
+		vB(errors.Is(err, vErrPlain)), vB(experr.IsShutdownErr(err))))
+}
+
+var vErrPlain = errors.New("export failed")
+
+// vOutcome: 0 success, 1 plain export error, 2 error classified as interrupted-by-shutdown
+func vOutcome(kind int) error {
+	switch kind {
+	case 1:
+		return vErrPlain
+	case 2:
+		return experr.NewShutdownErr(errors.New("retry interrupted"))
+	}
+	return nil
 }
 
 type vFlight struct {
@@ -116,6 +140,10 @@ func TestVerifC04Batcher(t *testing.T) {
 				t.Fatalf("invalid generated config: %v", err)
 			}
 			rec := &vRec{}
+			if c%10 == 9 {
+				vRunDisabled(out, c, rnd, rec)
+				return
+			}
 			qb := newDefaultBatcher(cfg, batcherSettings[request.Request]{
 				sizerType: request.SizerTypeBytes,
 				sizer:     request.BaseSizer{SizeofFunc: func(r request.Request) int64 { return r.(*vBReq).size() }},
@@ -168,13 +196,9 @@ func TestVerifC04Batcher(t *testing.T) {
 			finish := func(k int) {
 				f := open[k]
 				open = append(open[:k], open[k+1:]...)
-				ok := rnd.IntN(3) != 0
-				out.Linef("op finish f=%d ok=%d", f, vB(ok))
-				if ok {
-					flights[f].release <- nil
-				} else {
-					flights[f].release <- errors.New("export failed")
-				}
+				kind := []int{0, 0, 0, 1, 1, 2}[rnd.IntN(6)]
+				out.Linef("op finish f=%d kind=%d", f, kind)
+				flights[f].release <- vOutcome(kind)
 				report()
 			}
 			steps := 1 + rnd.IntN(10)
@@ -186,7 +210,14 @@ func TestVerifC04Batcher(t *testing.T) {
 					id++
 					var parts []vPart
 					var us []string
-					for u, nu := 0, 1+rnd.IntN(4); u < nu; u++ {
+					nu := 1 + rnd.IntN(4)
+					if rnd.IntN(8) == 0 {
+						// a request without items: carried as one unit of size 0 (ItemsCount() == 0)
+						nu = 0
+						parts = append(parts, vPart{id, 0})
+						us = append(us, "0")
+					}
+					for u := 0; u < nu; u++ {
 						sz := 1 + rnd.IntN(int(max(maxSize, 4))+1)
 						parts = append(parts, vPart{id, sz})
 						us = append(us, fmt.Sprint(sz))
@@ -221,4 +252,45 @@ func TestVerifC04Batcher(t *testing.T) {
 			out.Flush()
 		})
 	}
+}
+
+// vRunDisabled: disabledBatcher.Consume exports synchronously and hands the outcome to Done.
+func vRunDisabled(out *vOut, c int, rnd interface{ IntN(int) int }, rec *vRec) {
+	kind := 0
+	nextF := 0
+	var started []string
+	db := newDisabledBatcher[request.Request](func(_ context.Context, req request.Request) error {
+		started = append(started, fmt.Sprintf("obs flush f=%d parts=%s", nextF, req.(*vBReq).String()))
+		nextF++
+		return vOutcome(kind)
+	})
+	out.Linef("case %d mode=disabled", c)
+	out.Linef("op cfg min=0 max=0")
+	out.Linef("obs done")
+	for id := 1; id <= 1+rnd.IntN(6); id++ {
+		var parts []vPart
+		var us []string
+		for u, nu := 0, 1+rnd.IntN(3); u < nu; u++ {
+			sz := rnd.IntN(6)
+			parts = append(parts, vPart{id, sz})
+			us = append(us, fmt.Sprint(sz))
+		}
+		kind = []int{0, 0, 1, 2}[rnd.IntN(4)]
+		out.Linef("op dconsume id=%d units=%s kind=%d", id, strings.Join(us, ","), kind)
+		db.Consume(context.Background(), &vBReq{parts: parts}, vDone{id: id, rec: rec})
+		for _, l := range started {
+			out.Linef("%s", l)
+		}
+		started = nil
+		rec.mu.Lock()
+		for _, l := range rec.fired {
+			out.Linef("%s", l)
+		}
+		rec.fired = nil
+		rec.mu.Unlock()
+		out.Linef("obs cur none")
+	}
+	out.Linef("stat disabled_batcher 1")
+	out.Linef("end")
+	out.Flush()
 }
